@@ -10,11 +10,12 @@ import (
 // logical deadline injected at every expression tick of a recorded execution.
 
 var propC16 = &pProp{
-	id:     "C16",
-	level:  "fault_enumeration",
-	rule:   "one evaluation = one simulated Parse call of a real generated parser (kernel code blocks incl. re-entrant parses, simulated pool); per (grammar, input, option set) case the un-cancelled execution is recorded under a large budget and then re-executed with MaxExpressions(n) for every n in [1, N+1] (N = expressions of the reference; sampled above the enumeration bound), each bounded run being compared with the reference: identical when the budget suffices, otherwise nil value, the budget error last, earlier errors a prefix, history exactly the reference events up to tick n, ExprCnt <= n+1, and return within (n+2)*C(G) instrumentation steps; plus runs with a reused Stats value whose count is already beyond the budget; distinct_nontrivial = distinct (grammar, input, options) cases in which at least one bounded run was executed",
-	assume: []string{"ExprCnt as reported through the Statistics option is the parser's clock; when the caller passes no Statistics the ticks are calibrated by a twin run that only adds that option; variants without Statistics (-optimize-parser) are checked with the prefix/monotonicity relation only", "C(G) = 400 + 8*(widest expression) + 40*(state keys+4) steps per expression is generous: the largest observed ratio is reported as max_steps_per_expr"},
-	bias:   specBias{nullableLoops: 55, leftRec: 12, states: 45, preds: 60, actions: 80, throws: 30, optimized: 30, display: 10, unicode: 40},
+	id:        "C16",
+	clockTwin: true,
+	level:     "fault_enumeration",
+	rule:      "one evaluation = one simulated Parse call of a real generated parser (kernel code blocks incl. re-entrant parses, simulated pool); per (grammar, input, option set) case the un-cancelled execution is recorded under a large budget and then re-executed with MaxExpressions(n) for every n in [1, N+1] (N = expressions of the reference; sampled above the enumeration bound), each bounded run being compared with the reference: identical when the budget suffices, otherwise nil value, the budget error last, earlier errors a prefix, history exactly the reference events up to tick n, ExprCnt <= n+1, and return within (n+2)*C(G) instrumentation steps; plus runs with a reused Stats value whose count is already beyond the budget; distinct_nontrivial = distinct (grammar, input, options) cases in which at least one bounded run was executed",
+	assume:    []string{"ExprCnt as reported through the Statistics option is the parser's clock; when the caller passes no Statistics the ticks are calibrated by a twin run that only adds that option; variants without Statistics (-optimize-parser) take their ticks from the same grammar generated without that flag when the two produce the same history (otherwise: prefix/monotonicity and the one-expression-per-code-block bound only)", "C(G) = 400 + 8*(widest expression) + 40*(state keys+4) steps per expression is generous: the largest observed ratio is reported as max_steps_per_expr"},
+	bias:      specBias{nullableLoops: 55, leftRec: 12, states: 45, preds: 60, actions: 80, throws: 30, optimized: 30, display: 10, unicode: 40},
 	tier: func(tier string) pParams {
 		if tier == "thorough" {
 			return pParams{batches: 6, grammars: 400, inputs: 8, optSets: 3, enumMax: 400}
@@ -43,7 +44,7 @@ var propC16 = &pProp{
 				}
 				reqs = append(reqs, &parsersim.Request{ID: fmt.Sprintf("c16-%s-i%d-o%d", gp.Name, ii, k), Kind: "c16", Parser: gp.Name,
 					Call: parsersim.Call{Input: in, Opts: o, Plan: plan},
-					Pool: drawPool(r, false), Seed: r.u64(), RefBudget: uint64(400 + r.intn(1200)), EnumMax: p.enumMax})
+					Pool: drawPool(r, false), Seed: r.u64(), RefBudget: uint64(400 + r.intn(1200)), EnumMax: p.enumMax, TwinParser: gp.Twin})
 			}
 		}
 		return reqs
